@@ -60,9 +60,9 @@ const (
 	chValue  = "xrpc.ch.val"
 	chClose  = "xrpc.ch.close"
 
-	stepTimeout   = 10 * time.Second  // every wait inside a child; hitting it is a verdict, not a measurement
-	batchTimeout  = 120 * time.Second // one child working through a chunk
-	singleTimeout = 30 * time.Second  // one child re-running one input in isolation
+	stepTimeout   = 20 * time.Second  // every wait inside a child; hitting it is a verdict, not a measurement
+	batchTimeout  = 240 * time.Second // one child working through a chunk
+	singleTimeout = 60 * time.Second  // one child re-running one input in isolation
 	chunkSize     = 100
 
 	sibKey  = 100000 // key of the well-behaved client's parked call
